@@ -238,7 +238,7 @@ def search_part(ck, tier):
       r = out.get(which)
       if r and r['outcome'] == 'ok':
         nd += len(r['designs'])
-        fails = so.c14_sorted(r, case['par_final'].get('n_designs', 1))
+        fails = so.c14_sorted(r, int(case['par_final'].get('n_designs', 1)))
         if fails:
           ck.fail('search-order', '%s search: %s' % (which, fails[0]), {'search_case': searchfam.slim(case), 'which': which})
     ck.count(('search', case['seed']), nontrivial=bool(out.get('exhaustive', {}).get('designs')))
@@ -277,7 +277,7 @@ def replay(data):
     for which in ('exhaustive', 'greedy'):
       r = out.get(which)
       if r and r['outcome'] == 'ok':
-        bad += so.c14_sorted(r, sc['par_final'].get('n_designs', 1))
+        bad += so.c14_sorted(r, int(sc['par_final'].get('n_designs', 1)))
         print(which, [(d['T_ids'], d['C_ids'], d['score']) for d in r['designs']])
     print('property failures:', bad or 'none')
     return 1 if bad else 0
